@@ -2,6 +2,7 @@
 //! time by the baton scheduler (`sched.rs`), with a virtual clock, a controllable cleanup ticker,
 //! recorded callbacks and a full state snapshot after every step.
 use crate::comp::{str_kc, str_tlfu};
+use crate::monitors::{Flags, Mon};
 use crate::rng::Rng;
 use crate::sched::{Actor, Arrival, Sched, Status, ACTOR, POL, PROC};
 use crate::trace::Trace;
@@ -308,9 +309,13 @@ pub struct Case {
     pub pol_exited: bool,
     pub item_size: usize,
     pub hung: bool,
+    pub mon: Mon,
+    last_snap: CacheSnap<u64>,
+    proc_prev_at: &'static str,
+    tick_since_quiescent: bool,
 }
 
-const LONG: Duration = Duration::from_secs(10);
+const LONG: Duration = Duration::from_secs(30);
 const WAITLIKE: Duration = Duration::from_millis(3);
 const OFFER: Duration = Duration::from_millis(25);
 
@@ -326,7 +331,7 @@ fn spawner(fut: futures::future::BoxFuture<'static, ()>) {
 }
 
 impl Case {
-    pub fn new(sched: Arc<Sched>, cfg: Config, nclients: usize) -> Result<Case, String> {
+    pub fn new(sched: Arc<Sched>, cfg: Config, nclients: usize, case_id: u64, flags: Flags) -> Result<Case, String> {
         sched.reset();
         sched.set_controlled(true);
         verif::clock::set_ns(cfg.now_ns);
@@ -386,8 +391,13 @@ impl Case {
             });
             jobs.push(tx);
         }
-        let item_size = snapshot(&ck).item_size;
+        let first = snapshot(&ck);
+        let item_size = first.item_size;
         Ok(Case {
+            mon: Mon::new(case_id, cfg.clone(), flags, item_size),
+            last_snap: first,
+            proc_prev_at: "proc:loop",
+            tick_since_quiescent: false,
             cfg,
             sched,
             ck,
@@ -407,16 +417,51 @@ impl Case {
         })
     }
 
-    fn cbs(&self) -> String {
-        let v: Vec<String> = std::mem::take(&mut *self.cb.0.lock().unwrap());
-        if v.is_empty() { "-".into() } else { v.join(",") }
+    fn is_quiescent(&self, s: &CacheSnap<u64>) -> bool {
+        self.cstate.iter().all(|c| *c == CState::Idle)
+            && s.buf_len == 0
+            && s.pol_queue_len == 0
+            && self.clear_pending <= 0
+            && self.ticks_pending <= 0
+            && !self.stop_offered
+            && !self.pol_stop_offered
+            && (self.proc_exited || self.sched.status(PROC) == Status::At("proc:loop"))
+            && (self.pol_exited || self.sched.status(POL) == Status::At("pol:loop"))
     }
 
     fn log_step(&mut self, t: &mut Trace, line: &str, at: &str, res: &str) {
         t.step(line);
-        let cbs = self.cbs();
+        let cbv: Vec<String> = std::mem::take(&mut *self.cb.0.lock().unwrap());
+        let cbs = if cbv.is_empty() { "-".to_string() } else { cbv.join(",") };
         t.obs(&format!("at={} cb={} res={}", at, cbs, res));
-        t.snap(&str_snap(&snapshot(&self.ck)));
+        let after = snapshot(&self.ck);
+        let after_s = str_snap(&after);
+        t.snap(&after_s);
+        // ---- monitors on the implementation's own observations
+        let now = verif::clock::now_ns();
+        let before = std::mem::replace(&mut self.last_snap, after.clone());
+        if line.starts_with("pr tick") {
+            self.mon.tick_started(now);
+            self.tick_since_quiescent = true;
+        }
+        self.mon.callbacks(&cbv, &before, now, line);
+        if line.starts_with("pr") {
+            if self.proc_prev_at == "proc:clear:after_store" && at == "proc:loop" {
+                self.mon.clear_performed(&after);
+            }
+        }
+        if at == "finish" && (line.starts_with("op ") || line.starts_with("cl ")) {
+            let a: usize = line.split(' ').nth(1).unwrap().parse().unwrap();
+            let unchanged = str_snap(&before) == after_s;
+            self.mon.op_finished(a, res, now, &before, &after, unchanged);
+        }
+        if at == "HUNG" {
+            self.mon.hung(line);
+        }
+        if self.is_quiescent(&after) {
+            let tick_done = std::mem::replace(&mut self.tick_since_quiescent, false);
+            self.mon.quiescent(&after, now, tick_done);
+        }
     }
 
     fn note_client_arrival(&mut self, a: usize, arr: &Arrival, from: Option<&'static str>) {
@@ -527,6 +572,7 @@ impl Case {
         assert_eq!(self.cstate[a], CState::Idle);
         let seen = self.sched.arrivals(a as Actor);
         self.sched.mark_running(a as Actor);
+        self.mon.op_started(a, &op, verif::clock::now_ns(), self.last_snap.closed);
         let ck = self.ck.clone();
         let op2 = op.clone();
         self.jobs[a].send(Box::new(move || do_op(&ck, &op2))).unwrap();
@@ -616,6 +662,10 @@ impl Case {
             }
         };
         self.log_step(t, &format!("pr {} {} {}{}", arm, tick_key, n_or, oracle), at, "-");
+        self.proc_prev_at = match &arr {
+            Arrival::At(p) => *p,
+            _ => "HUNG",
+        };
         self.poll_blocked(t, Duration::from_micros(400));
     }
 
@@ -721,6 +771,15 @@ impl Case {
         for a in 0..self.cstate.len() {
             if let CState::Blocked(p) = self.cstate[a] {
                 t.step(&format!("stuck {} {}", a, p));
+                self.mon.stuck(a, p);
+            }
+        }
+        if self.mon.closed_ok() && !self.hung {
+            if !self.proc_exited {
+                self.mon.worker_alive_after_close("the cache processor");
+            }
+            if !self.pol_exited {
+                self.mon.worker_alive_after_close("the policy worker");
             }
         }
         // tear down: let everything run free, close if still open
